@@ -11,6 +11,7 @@ import (
 	"verifharness/props/c01"
 	"verifharness/props/c15"
 	"verifharness/props/c16"
+	"verifharness/props/c17"
 	"verifharness/props/c20"
 )
 
@@ -18,6 +19,7 @@ var table = map[string]func(lib.Opts){
 	"C01": c01.Run,
 	"C15": c15.Run,
 	"C16": c16.Run,
+	"C17": c17.Run,
 	"C20": c20.Run,
 }
 
